@@ -5,6 +5,7 @@ package main
 
 import (
 	"bufio"
+	crand "crypto/rand"
 	"crypto/sha256"
 	"encoding/binary"
 	"encoding/hex"
@@ -22,14 +23,15 @@ import (
 )
 
 type scenario struct {
-	ID     string `json:"id"`
-	Kind   string `json:"kind"` // vose | seeds | drbg | range
-	W      [][]int `json:"w"`    // vose: weight vectors
-	Seeds  []string `json:"seeds"`
-	Bounds [][2]int `json:"bounds"`
-	NSamp  int    `json:"nsamp"`
-	Calls  [][3]int `json:"calls"` // range: [fn, a, b]  fn 0 IntRange 1 Intn 2 Float64
-	K      int    `json:"k"`
+	ID       string   `json:"id"`
+	Kind     string   `json:"kind"` // vose | seeds | drbg | range
+	W        [][]int  `json:"w"`    // vose: weight vectors
+	Seeds    []string `json:"seeds"`
+	Bounds   [][2]int `json:"bounds"`
+	NSamp    int      `json:"nsamp"`
+	Calls    [][3]int `json:"calls"` // range: [fn, a, b]  fn 0 IntRange 1 Intn 2 Float64
+	K        int      `json:"k"`
+	Scripted bool     `json:"scripted"` // range: crypto/rand.Reader is replaced by boundary-valued entropy
 }
 
 const scale = 1000000
@@ -270,7 +272,43 @@ func runDrbg(s *scenario) {
 	}
 }
 
+// scriptedEntropy is a crypto/rand.Reader stand-in that cycles through 8-byte words at the boundaries of the 63/64-bit
+// range (csrand reads crypto/rand.Reader at call time): "for all entropy values" where sampling real entropy never gets.
+type scriptedEntropy struct {
+	words []uint64
+	i     int
+	buf   []byte
+}
+
+func (e *scriptedEntropy) Read(p []byte) (int, error) {
+	for i := range p {
+		if len(e.buf) == 0 {
+			var b [8]byte
+			binary.BigEndian.PutUint64(b[:], e.words[e.i%len(e.words)])
+			e.i++
+			e.buf = b[:]
+		}
+		p[i] = e.buf[0]
+		e.buf = e.buf[1:]
+	}
+	return len(p), nil
+}
+
+func boundaryWords() []uint64 {
+	top := uint64(1)<<63 - 1
+	ws := []uint64{0, 1, 2, top, ^uint64(0), 1 << 63, 1<<63 | 1, 1 << 62, 1<<62 - 1, 1 << 53, 1<<53 - 1, 1<<53 + 1, 1 << 31, 1<<31 - 1, 1 << 32, 1<<32 - 1}
+	for _, k := range []uint64{1, 2, 255, 256, 257, 511, 512, 513, 1023, 1024, 1025, 2047, 2048, 2049, 4096} {
+		ws = append(ws, top-k, (top-k)|1<<63)
+	}
+	return ws
+}
+
 func runRange(s *scenario) {
+	if s.Scripted {
+		old := crand.Reader
+		crand.Reader = &scriptedEntropy{words: boundaryWords()}
+		defer func() { crand.Reader = old }()
+	}
 	names := []string{"IntRange", "Intn", "Float64"}
 	for _, c := range s.Calls {
 		fn, a, b := c[0], c[1], c[2]
@@ -303,6 +341,6 @@ func runRange(s *scenario) {
 		if panicked {
 			lo, hi = 0, 0
 		}
-		w.Emit(vt.Ev{"event": "Range", "fn": names[fn], "a": a, "b": b, "k": s.K, "lo": lo, "hi": hi, "panicked": panicked})
+		w.Emit(vt.Ev{"event": "Range", "fn": names[fn], "a": a, "b": b, "k": s.K, "lo": lo, "hi": hi, "panicked": panicked, "scripted": s.Scripted})
 	}
 }
